@@ -8,9 +8,12 @@
 package main
 
 import (
+	"context"
 	"encoding/binary"
+	"errors"
 	"fmt"
 	"net"
+	"net/netip"
 	"sort"
 	"strconv"
 	"strings"
@@ -83,6 +86,7 @@ type gl struct { // generator-side listener
 	closed      bool // Go channel closed
 	closeCalled bool
 	buf         int
+	bufFid      int // step of the forward sitting in the buffer (-1: not tracked)
 	waiters     int
 }
 
@@ -160,6 +164,8 @@ func genSched(g *hx.Gen, wantHang bool) (cls string, addrs []addr, toks []string
 		}
 		return nil
 	}
+	var accepted []int           // forwards known to have been accepted while the connection was up (targets of q tokens)
+	curFid := -1                 // step of the forward being delivered (-1: replayed from the parked handler's queue)
 	var deliver func(k int) bool // handler processes a well-formed forward for address k; false = parked
 	deliver = func(k int) bool {
 		e := lookup(k)
@@ -171,10 +177,14 @@ func genSched(g *hx.Gen, wantHang bool) (cls string, addrs []addr, toks []string
 			if e.closeCalled {
 				late = true
 			}
+			if curFid >= 0 && !dead {
+				accepted = append(accepted, curFid)
+			}
 			return true
 		}
 		if e.buf == 0 {
 			e.buf = 1
+			e.bufFid = curFid
 			return true
 		}
 		blockedNet, blockedOn = netOf(k), e
@@ -279,6 +289,8 @@ func genSched(g *hx.Gen, wantHang bool) (cls string, addrs []addr, toks []string
 				tok = "lu"
 			} else if !a.unix && canonicalIP(a.host) && a.port != 0 && r.Bool() {
 				tok = "lt"
+			} else if !a.unix && r.Chance(1, 4) {
+				tok = r.PickStr("lf", "ls")
 			}
 			deny := r.Chance(1, 10)
 			started = true
@@ -339,10 +351,12 @@ func genSched(g *hx.Gen, wantHang bool) (cls string, addrs []addr, toks []string
 			} else {
 				g.Stat("fwd.matched")
 			}
+			curFid = step
 			if !deliver(k) {
 				g.Stat("fwd.parks-handler")
 			}
-		case choice < 80 && len(ls) > 0: // accept
+			curFid = -1
+		case choice < 78 && len(ls) > 0: // accept
 			if wantHang && blockedOn == nil && r.Chance(2, 3) {
 				continue
 			}
@@ -353,6 +367,10 @@ func genSched(g *hx.Gen, wantHang bool) (cls string, addrs []addr, toks []string
 			switch {
 			case l.buf == 1:
 				l.buf = 0
+				if l.bufFid >= 0 && !dead {
+					accepted = append(accepted, l.bufFid)
+				}
+				l.bufFid = -1
 				if l.closeCalled {
 					late = true
 					g.Stat("accept.after-close-gets-buffered")
@@ -387,7 +405,33 @@ func genSched(g *hx.Gen, wantHang bool) (cls string, addrs []addr, toks []string
 				emit(fmt.Sprintf("a%d", l.step))
 				g.Stat("accept.waits")
 			}
-		case choice < 94 && len(ls) > 0: // close (never while a handler is parked, in this region)
+		case choice >= 78 && choice < 83: // Dial family (independent of the forward list)
+			k := r.Intn(len(addrs))
+			a := addrs[k]
+			tok := "d"
+			switch r.Intn(6) {
+			case 0:
+				tok = "dx"
+			case 1:
+				tok = "dc"
+			case 2:
+				if !a.unix && canonicalIP(a.host) && a.effPort() <= 65535 {
+					tok = "dt"
+				}
+			}
+			tok += strconv.Itoa(k)
+			if (tok[1] >= '0' && tok[1] <= '9' || tok[1] == 't') && r.Chance(1, 4) {
+				tok += "!"
+			}
+			emit(tok)
+			g.Stat("dial." + strings.TrimRight(strings.TrimRight(tok, "!"), "0123456789"))
+		case choice == 83: // Listen with an unsupported network: error, no request, handlers not started
+			emit(fmt.Sprintf("lx%d", r.Intn(len(addrs))))
+			g.Stat("listen.unsupported-network")
+		case choice >= 84 && choice < 87 && len(accepted) > 0 && !dead && blockedOn == nil: // request on an accepted forward
+			emit(fmt.Sprintf("q%d", hx.Pick(r, accepted)))
+			g.Stat("request-on-accepted-forward")
+		case choice < 96 && choice >= 87 && len(ls) > 0: // close (never while a handler is parked, in this region)
 			if blockedOn != nil {
 				continue
 			}
@@ -411,7 +455,7 @@ func genSched(g *hx.Gen, wantHang bool) (cls string, addrs []addr, toks []string
 			}
 			emit(tok)
 			g.Stat("close")
-		case choice >= 94 && !dead && blockedOn == nil && len(toks) > 2: // peer drops the connection
+		case choice >= 96 && !dead && blockedOn == nil && len(toks) > 2: // peer drops the connection
 			dead = true
 			for _, e := range entries {
 				e.live, e.closed, e.waiters = false, true, 0
@@ -470,7 +514,10 @@ type sim struct {
 	listeners      map[int]net.Listener // by step index of the listen call
 	closeRet       map[int]bool         // listener step -> its Close has returned
 	policy         map[string]reqPolicy
-	refused        map[string]bool // requests the scripted peer answered with REQUEST_FAILURE
+	refused        map[string]bool   // requests the scripted peer answered with REQUEST_FAILURE
+	clientChan     map[uint32]uint32 // forward id -> the client's channel id (from its confirmation)
+	curStep        int               // step whose synchronous call (Dial, channel request) is running
+	dialDeny       bool
 }
 
 type reqPolicy struct {
@@ -505,9 +552,56 @@ func (s *sim) onWrite(b []byte) {
 		} else {
 			s.p.send([]byte{81})
 		}
+	case 90: // the client opens a channel: Dial / DialTCP / DialContext (direct-tcpip, direct-streamlocal)
+		typ, rest, ok := rdStr(b[1:])
+		if !ok || len(rest) < 12 {
+			return
+		}
+		cid := binary.BigEndian.Uint32(rest)
+		pl := rest[12:]
+		s.mu.Lock()
+		step, deny := s.curStep, s.dialDeny
+		s.mu.Unlock()
+		e := fmt.Sprintf("O%d=?%s", step, typ)
+		switch typ {
+		case "direct-tcpip":
+			if host, r1, ok := rdStr(pl); ok && len(r1) >= 4 {
+				port := binary.BigEndian.Uint32(r1)
+				e = fmt.Sprintf("O%d=t~%s~%d", step, host, port)
+				if la, r2, ok := rdStr(r1[4:]); !ok || la != "0.0.0.0" || len(r2) != 4 || binary.BigEndian.Uint32(r2) != 0 {
+					e += "~bad-origin"
+				}
+			}
+		case "direct-streamlocal@openssh.com":
+			if path, _, ok := rdStr(pl); ok {
+				e = fmt.Sprintf("O%d=u~%s", step, path)
+			}
+		}
+		s.event(e)
+		if deny {
+			s.p.send(append(append(append([]byte{92}, sshU32(cid)...), sshU32(2)...), append(sshStr("no"), sshStr("")...)...))
+		} else {
+			r := append([]byte{91}, sshU32(cid)...)
+			r = append(r, sshU32(uint32(5000+step))...)
+			r = append(r, sshU32(1<<20)...)
+			r = append(r, sshU32(1<<15)...)
+			s.p.send(r)
+		}
+	case 99, 100: // answer to the peer's channel request on an accepted forward
+		s.mu.Lock()
+		step := s.curStep
+		s.mu.Unlock()
+		if b[0] == 99 {
+			s.event(fmt.Sprintf("Q%d=ok", step))
+		} else {
+			s.event(fmt.Sprintf("Q%d=fail", step))
+		}
 	case 91: // channel open confirmation: recipient channel = the peer's id = forward step
 		id := binary.BigEndian.Uint32(b[1:])
 		s.mu.Lock()
+		if len(b) >= 9 {
+			s.clientChan[id] = binary.BigEndian.Uint32(b[5:])
+		}
 		s.replied++
 		s.confirms++
 		s.ev = append(s.ev, fmt.Sprintf("F%d=c", id))
@@ -671,7 +765,7 @@ func exec(line string) string {
 		addrs = append(addrs, parseAddr(a))
 	}
 	toks := o.List("sched")
-	s := &sim{p: newPipe(), listeners: map[int]net.Listener{}, closeRet: map[int]bool{}, policy: map[string]reqPolicy{}, pendingAccepts: map[int]int{}, refused: map[string]bool{}}
+	s := &sim{p: newPipe(), listeners: map[int]net.Listener{}, closeRet: map[int]bool{}, policy: map[string]reqPolicy{}, pendingAccepts: map[int]int{}, refused: map[string]bool{}, clientChan: map[uint32]uint32{}}
 	s.p.onWrite = s.onWrite
 	s.c = ssh.VerifC37NewClient(s.p, "SSH-2.0-verif")
 	go func() {
@@ -695,7 +789,7 @@ func exec(line string) string {
 		case t[0] == 'l':
 			api := "l"
 			rest := t[1:]
-			if rest[0] == 't' || rest[0] == 'u' {
+			if rest[0] == 't' || rest[0] == 'u' || rest[0] == 'f' || rest[0] == 's' || rest[0] == 'x' {
 				api, rest = "l"+rest[:1], rest[1:]
 			}
 			k, _ := strconv.Atoi(rest)
@@ -721,6 +815,12 @@ func exec(line string) string {
 					l, err = s.c.ListenTCP(&net.TCPAddr{IP: net.ParseIP(a.host), Port: a.port})
 				case "lu":
 					l, err = s.c.ListenUnix(a.host)
+				case "lf":
+					l, err = s.c.Listen("tcp4", net.JoinHostPort(a.host, strconv.Itoa(a.port)))
+				case "ls":
+					l, err = s.c.Listen("tcp6", net.JoinHostPort(a.host, strconv.Itoa(a.port)))
+				case "lx":
+					l, err = s.c.Listen("udp", net.JoinHostPort(a.host, strconv.Itoa(a.port)))
 				default:
 					if a.unix {
 						l, err = s.c.Listen("unix", a.host)
@@ -742,9 +842,88 @@ func exec(line string) string {
 				s.mu.Lock()
 				s.listeners[step] = l
 				s.mu.Unlock()
+				if !addrOK(l.Addr(), a) { // Addr(): checked against the stdlib's own parsing of the requested address
+					s.event("listener-addr-bad")
+				}
 				return fmt.Sprintf("L%d=ok", step)
 			})
 			marker = fmt.Sprintf("L%d=hang", step)
+		case t[0] == 'd': // Dial family: synchronous (the scripted peer answers the open from inside writePacket)
+			rest := t[1:]
+			variant := ""
+			if rest[0] < '0' || rest[0] > '9' {
+				variant, rest = rest[:1], rest[1:]
+			}
+			k, _ := strconv.Atoi(rest)
+			a := addrs[k]
+			s.mu.Lock()
+			s.curStep, s.dialDeny = step, bang
+			s.mu.Unlock()
+			var cn net.Conn
+			var err error
+			target := a.host
+			if !a.unix {
+				target = net.JoinHostPort(a.host, strconv.Itoa(a.effPort()))
+			}
+			netw := "tcp"
+			if a.unix {
+				netw = "unix"
+			}
+			switch variant {
+			case "x":
+				cn, err = s.c.Dial("udp", target)
+			case "c":
+				ctx, cancel := context.WithCancel(context.Background())
+				cancel()
+				cn, err = s.c.DialContext(ctx, netw, target)
+			case "t":
+				cn, err = s.c.DialTCP("tcp", nil, &net.TCPAddr{IP: net.ParseIP(a.host), Port: a.effPort()})
+			default:
+				if step%2 == 0 {
+					cn, err = s.c.Dial(netw, target)
+				} else {
+					cn, err = s.c.DialContext(context.Background(), netw, target)
+				}
+			}
+			var oce *ssh.OpenChannelError
+			switch {
+			case err == nil:
+				if !dialAddrOK(cn, a, variant) {
+					s.event("dial-addr-bad")
+				}
+				s.event(fmt.Sprintf("D%d=ok", step))
+			case errors.As(err, &oce):
+				s.event(fmt.Sprintf("D%d=fail:%d", step, oce.Reason))
+			default:
+				s.event(fmt.Sprintf("D%d=err", step))
+			}
+		case t[0] == 'q': // the peer sends a channel request (want-reply) on an accepted forwarded channel
+			f, _ := strconv.Atoi(t[1:])
+			s.mu.Lock()
+			cid, ok := s.clientChan[uint32(f)]
+			s.curStep = step
+			n0 := len(s.ev)
+			s.mu.Unlock()
+			if !ok {
+				return "bad-op"
+			}
+			rq := append([]byte{98}, sshU32(cid)...)
+			rq = append(rq, sshStr("verif")...)
+			rq = append(rq, 1)
+			s.p.send(rq)
+			for dl := time.Now().Add(5 * time.Second); time.Now().Before(dl); time.Sleep(200 * time.Microsecond) {
+				s.mu.Lock()
+				got := false
+				for _, e := range s.ev[n0:] {
+					if strings.HasPrefix(e, "Q") {
+						got = true
+					}
+				}
+				s.mu.Unlock()
+				if got {
+					break
+				}
+			}
 		case t[0] == 'f':
 			rest := t[1:]
 			variant := ""
@@ -777,6 +956,9 @@ func exec(line string) string {
 					return fmt.Sprintf("A%d=err", step)
 				}
 				id, _ := ssh.VerifC37ConnRemoteID(cn)
+				if !connAddrOK(cn, l, int(id)) {
+					s.event("conn-addr-bad")
+				}
 				if late {
 					return fmt.Sprintf("A%d=late-c%d", step, id)
 				}
@@ -836,11 +1018,45 @@ func exec(line string) string {
 	return strings.Join(segs, "|")
 }
 
+// ---- address oracles (stdlib only, independent of the code under test)
+
+func addrOK(got net.Addr, a addr) bool {
+	if a.unix {
+		return got.Network() == "unix" && got.String() == a.host
+	}
+	ip := net.IPv4zero
+	if p, err := netip.ParseAddr(a.host); err == nil {
+		ip = net.IP(p.AsSlice())
+	}
+	want := &net.TCPAddr{IP: ip, Port: a.effPort()}
+	return got.Network() == "tcp" && got.String() == want.String()
+}
+
+func connAddrOK(cn net.Conn, l net.Listener, fid int) bool {
+	if cn.LocalAddr().String() != l.Addr().String() || cn.LocalAddr().Network() != l.Addr().Network() {
+		return false
+	}
+	if l.Addr().Network() == "unix" {
+		return cn.RemoteAddr().Network() == "unix" && cn.RemoteAddr().String() == "@"
+	}
+	return cn.RemoteAddr().String() == fmt.Sprintf("10.1.2.3:%d", 1000+fid)
+}
+
+func dialAddrOK(cn net.Conn, a addr, variant string) bool {
+	if a.unix {
+		return cn.LocalAddr().String() == "@" && cn.RemoteAddr().String() == a.host && cn.RemoteAddr().Network() == "unix"
+	}
+	if variant == "t" {
+		return cn.LocalAddr().String() == "0.0.0.0:0" && cn.RemoteAddr().String() == (&net.TCPAddr{IP: net.ParseIP(a.host), Port: a.effPort()}).String()
+	}
+	return cn.LocalAddr().String() == "0.0.0.0:0" && cn.RemoteAddr().String() == "0.0.0.0:0"
+}
+
 // setCancelPolicy: the peer refuses ('!') or acknowledges the cancel-…-forward request for the listener
 // created at step ls.
 func (s *sim) setCancelPolicy(addrs []addr, toks []string, ls int, deny bool) {
 	t := strings.TrimSuffix(toks[ls], "!")
-	rest := strings.TrimLeft(t, "ltu")
+	rest := strings.TrimLeft(t, "ltufsx")
 	k, _ := strconv.Atoi(rest)
 	a := addrs[k]
 	var name string
